@@ -461,4 +461,132 @@ var schedules = []schedule{
 		w.observe()
 		s.expectCarry(b, att, true, "proxy-registered-during-foreign-teardown-carries")
 	}},
+	{"registration-in-flight-when-replaced", func(g *hx.Gen, w *world, gc *gateCtl) {
+		// the NewProxy handler runs inside the read loop: while it is in flight the session's teardown
+		// cannot start, so the registration lands in ctl.proxies and is torn down before the ack
+		s := newSched(w, gc)
+		s0 := s.freshLogin("")
+		if g.Intn(2) == 0 {
+			s.register(s0, 2)
+		}
+		k := g.Intn(2)
+		att0, ok := s.regSend(s0, k)
+		if !ok {
+			w.fail("sched-script", "free name refused")
+			return
+		}
+		rid := s.ridStr(s0)
+		var s1, t int = -1, -1
+		drop := g.Intn(2) == 0
+		if drop {
+			t = s.freshLogin("")
+			w.peers[s0].Close() // the peer goes away while its registration is being processed
+			w.alive[s0] = false
+		} else {
+			s1 = s.loginSend(rid, true) // Replaced(s0) closes its connection
+			w.alive[s0] = false
+		}
+		if a := gc.expectAny([]string{"ctl.teardown.proxy", "ctl.teardown.before_done"}, 80*time.Millisecond); a != nil {
+			w.fail("monitor:teardown-started-while-registration-in-flight",
+				fmt.Sprintf("session %d reached %s(%s) while its NewProxy handler was still parked before pxy.Run()", s0, a.point, a.key))
+			return
+		}
+		if s1 >= 0 {
+			s.loginBlocked(s1)
+		}
+		w.observe()
+		s.regRun(s0, k)
+		w.observe()
+		// Add + store (+ an answer nobody receives), then the read loop fails and the worker parks
+		gc.release(s.sess[s0])
+		if drop {
+			// the server answers a peer that has gone (its EOF is only read after the handler returns)
+			w.item(fmt.Sprintf("IRun (TSess %d)", s0))
+			w.item(fmt.Sprintf("IAct (AEof %d)", s0))
+			w.outs = append(w.outs, outRec{s0, fmt.Sprintf("ONewProxyResp %d %d %d 0 true", s0, k, att0)})
+		}
+		s.sess[s0] = nil
+		s.sessToTeardown(s0)
+		if s.sess[s0].point != "ctl.teardown.proxy" {
+			w.fail("monitor:in-flight-registration-missed-by-teardown", "the teardown found no proxy although a registration had completed")
+		}
+		w.observe()
+		if s1 >= 0 {
+			s.loginBlocked(s1)
+		} else {
+			_, cls := s.register(t, k)
+			s.expectClass(cls, 2, "name-of-draining-session-still-refused")
+		}
+		for !s.atBeforeDone(s0) {
+			s.teardownStep(s0)
+			w.observe()
+		}
+		s.done(s0, s1)
+		who := t
+		if s1 >= 0 {
+			s.start(s1, true)
+			w.observe()
+			who = s1
+		}
+		s.lateDel(s0)
+		w.observe()
+		att, cls := s.register(who, k)
+		s.expectClass(cls, 0, "name-free-after-in-flight-registration-of-dead-session")
+		s.expectCarry(who, att, true, "proxy-after-in-flight-registration-of-dead-session-carries")
+	}},
+	{"add-race-spin-barrier", func(g *hx.Gen, w *world, gc *gateCtl) {
+		// pxyManager.Add decides uniqueness: two sessions are let into it within nanoseconds, many rounds
+		gc.passThrough()
+		a := w.seqLogin("")
+		b := w.seqLogin("")
+		if a < 0 || b < 0 {
+			return
+		}
+		rounds := 120
+		for r := 0; r < rounds && len(w.fails) == 0; r++ {
+			k := g.Intn(3)
+			gc.armSpin("ctl.regproxy.after_run")
+			attA, portA, _ := w.newPort(-1)
+			attB, portB, _ := w.newPort(-1)
+			if w.sendNewProxy(a, k, portA, true) != nil || w.sendNewProxy(b, k, portB, true) != nil {
+				w.fail("sched-send-failed", "NewProxy")
+				return
+			}
+			if !gc.waitSpinArrived(2, arriveTimeout) {
+				gc.fireSpin()
+				w.fail("sched-missing-arrival", "two registrations of a free name did not both reach after_run")
+				return
+			}
+			gc.fireSpin()
+			cA, errA := w.recvNewProxyResp(a, k)
+			cB, errB := w.recvNewProxyResp(b, k)
+			gc.armSpin("")
+			if errA != nil || errB != nil {
+				w.fail("sched-no-newproxyresp", fmt.Sprintf("%v %v", errA, errB))
+				return
+			}
+			w.item(fmt.Sprintf("IAct (AReq %d (RNew %d %d 1%%Z true true))", a, k, attA))
+			w.item(fmt.Sprintf("IAct (AReq %d (RNew %d %d 1%%Z true true))", b, k, attB))
+			for _, x := range []int{a, a, b, b} {
+				w.item(fmt.Sprintf("IRun (TSess %d)", x))
+			}
+			first, second := a, b
+			if cB == 0 && cA != 0 {
+				first, second = b, a
+			}
+			w.item(fmt.Sprintf("IRun (TSess %d)", first))
+			w.item(fmt.Sprintf("IRun (TSess %d)", second))
+			w.outs = append(w.outs, outRec{a, fmt.Sprintf("ONewProxyResp %d %d %d %d true", a, k, attA, cA)})
+			w.outs = append(w.outs, outRec{b, fmt.Sprintf("ONewProxyResp %d %d %d %d true", b, k, attB, cB)})
+			w.kind("add-race-round")
+			if cA == 0 && cB == 0 {
+				w.fail("monitor:two-registrations-of-one-name-both-accepted",
+					fmt.Sprintf("round %d: sessions %d and %d both got NewProxyResp without error for name %d (ports %d and %d both listening: %v %v)",
+						r, a, b, k, portA, portB, !hx.TCPBindable(bindAddr, portA), !hx.TCPBindable(bindAddr, portB)))
+			}
+			w.observe()
+			w.seqClose(first, k)
+			w.ports[attA], w.ports[attB] = 0, 0 // observed closed; stop probing them
+		}
+	}},
 }
